@@ -84,6 +84,7 @@ def run_lian(files, cmd="lang", langs="python", extra=None, timeout=900, setting
         settings = os.path.join(root, "settings")
         os.makedirs(settings)
         for name, text in settings_files.items():
+            os.makedirs(os.path.dirname(os.path.join(settings, name)), exist_ok=True)
             with open(os.path.join(settings, name), "w") as f:
                 f.write(text)
     src = os.path.join(root, keep_name)
